@@ -159,6 +159,8 @@ class Fluid:
             b-factor in reservoir bbl / standard bbl
         """
         b_w = np.array([b_water_McCain(self.temperature, p) for p in pressure])
+        if b_w.size == 0 and np.ndim(pressure) > 1:
+            b_w = b_w.reshape(np.shape(pressure))  # no rows to stack
         return b_w
 
     def water_viscosity(self, pressure: NDArray | float):
